@@ -137,6 +137,7 @@ func (bw *BatchedWriter) Enqueue(object BatchWriteObject) {
 	if !bw.running.Load() {
 		return
 	}
+	verifEnqueueYield(bw, object, 0)
 
 	// abort if the very same object has been queued already
 	if object.BatchWriteScheduled() {
@@ -145,6 +146,7 @@ func (bw *BatchedWriter) Enqueue(object BatchWriteObject) {
 
 	// queue object
 	bw.scheduledCount.Add(1)
+	verifEnqueueYield(bw, object, 1)
 	bw.batchQueue <- object
 }
 
